@@ -51,7 +51,7 @@ CALL_STUBS = VM_STUBS + ["VM::call_cached_native -> arbitrary Ok(value)/Err, rec
                          "VM::print_value -> no-op (stdout)"]
 SHELL_PATH = "vm::dispatch::verif_shell::"
 RELEASE_ENV = {"CARGO_PROFILE_DEV_DEBUG_ASSERTIONS": "false"}
-C04_QUICK = {0, 2, 5, 18, 22, 36, 52, 125, 135, 161}
+C04_QUICK = {0, 1, 5, 18, 21, 22, 36, 52, 125, 135, 161}
 
 
 def _c04():
@@ -100,3 +100,146 @@ for _h, _shape in (("c04_v1_shape_w1_k0", "1 word, no constants"), ("c04_v1_shap
 ob("C04", "V2", "runtime", "shell.rs", "c04_v2_from_u8_declared_only", path=SHELL_PATH + "c04_v2_from_u8_declared_only", tier="quick", timeout=300,
    what="OpCode::from_u8(b) is Some exactly for the declared discriminants (table generated from opcode.rs) and round-trips",
    functions=["aelys_bytecode::OpCode::from_u8"], bounds="none: all 256 bytes", stubs=[])
+
+# ---------------------------------------------------------------- C06 / C02 (generated differential steps) + leaf selection
+C06_QUICK = {"LtIIG", "LtFFG", "EqIIG", "SubII", "AndII"}
+C02_QUICK = {"Add", "Lt", "Shl"}
+
+
+def _c06_c02():
+    try:
+        info = _shellgen.parse_run_rs(REPO)
+        groups = {a["file"]: _shellgen.pat_to_list(a["pat"]) for a in info["arms"]}
+        prs = _opgen.pairs(REPO, groups)
+        refs = _opgen.ref_rows(REPO, groups)
+    except Exception as e:  # noqa
+        return
+    modes = {"MODE_ANY": "any Value in the operand registers", "MODE_INTS": "operand registers hold ints", "MODE_FLOATS": "operand registers hold floats",
+             "MODE_PROMOTED": "any Value; the generic twin runs on float-promoted operands (a guarded float opcode is defined as 'treat ints as floats')",
+             "MODE_NOFLOAT": "any Value except floats (float * / % kernels do not finish in CBMC)",
+             "MODE_NONAN": "any Value except NaN", "MODE_PROMOTED_NONAN": "any Value except NaN; generic twin on float-promoted operands"}
+    for p in prs:
+        ob("C06", "P%03d" % p["top"], "runtime", "shell.rs", p["harness"], path=SHELL_PATH + p["harness"],
+           tier="quick" if p["tname"] in C06_QUICK else "thorough", timeout=1800, args=["--default-unwind", "7"],
+           what="%s (%d) and its generic twin %s (%d), run from identical states, end the same way: same error kind, or same destination value and next ip"
+                % (p["tname"], p["top"], p["gname"], p["gop"]),
+           functions=["ops/%s.inc handler %d" % (p["tgroup"], p["top"]), "ops/%s.inc handler %d" % (p["ggroup"], p["gop"]), "VM::{add,sub,mul,div,mod}_values, compare_*"],
+           bounds="operand fields a,b,c symbolic (0..255 each); base <= 2; 6 symbolic registers; operands: %s; one heap string" % modes[p["mode"]],
+           stubs=VM_STUBS, assumes=["debug_assert! ON (dev profile): a typed opcode reaching an ill-typed operand would be reported"])
+    for r in refs:
+        ob("C02", "R%03d" % r["op"], "runtime", "shell.rs", r["harness"], path=SHELL_PATH + r["harness"],
+           tier="quick" if r["name"] in C02_QUICK else "thorough", timeout=2400, args=["--default-unwind", "7"],
+           what="generic %s (%d) equals the definitional single-operation evaluator (48-bit wrap, truncating division, division-by-zero error, "
+                "int/float promotion, shift count & 63, IEEE floats): same value bits or same error kind" % (r["name"], r["op"]),
+           functions=["ops/%s.inc handler %d" % (r["group"], r["op"]), "VM::*_values / compare_*"],
+           bounds="operands: any non-pointer Values" + ("; ints only with one operand within 12 bits (64-bit symbolic multiply/divide does not terminate in SAT; float * / % excluded)" if r["small"] else "")
+                  + "; operand/dest register indices symbolic within the 6-register file",
+           stubs=VM_STUBS)
+
+
+_c06_c02()
+ob("C06", "O3a", "leaf", "c06_select.rs", "c06_o3a_selection_certain", timeout=300, stubbing=True,
+   what="select_opcode over certain operand types: an unguarded typed opcode only for two operands of its class; int/float mixes get the guarded float form "
+        "(never an unguarded one); anything else the generic opcode",
+   functions=["aelys_backend::opcode_select::select_opcode and its five tables"], bounds="all 16 operators x 15 x 15 leaf ResolvedTypes (exhaustive by solver)")
+ob("C06", "O3b", "leaf", "c06_select.rs", "c06_o3b_selection_uncertain", timeout=300, stubbing=True,
+   what="an Uncertain operand never gets an unguarded arithmetic/comparison opcode",
+   functions=["aelys_backend::opcode_select::select_opcode"], bounds="11 arithmetic/comparison operators x Uncertain(14 leaves) x 15 leaves, either side",
+   assumes=["bit operations excluded: the instruction set has no guarded bit opcodes, and Uncertain is never produced from source (only from an Uncertain input)"])
+ob("C02", "O2", "leaf", "c02_constants.rs", "c02_o2_add_constant_identity", timeout=300, stubbing=True,
+   what="Function::add_constant: the index returned for a value holds a constant with exactly that value's bits, whatever was added before",
+   functions=["aelys_bytecode::Function::add_constant", "<Value as PartialEq>::eq"], bounds="two arbitrary 64-bit Values (all kinds, all bit patterns)",
+   stubs=["GlobalLayout::empty -> cfg(kani) twin without OnceLock"])
+
+# ---------------------------------------------------------------- C09 / C13 / C20 / C05 (hand-written in-repo harnesses)
+U7 = ["--default-unwind", "7"]
+MEM_FNS = ["ops/memory.inc handlers", "VM::manual_alloc / manual_free / manual_heap_error / ensure_heap_capacity", "ManualHeap::{alloc,free,load,store,size}"]
+MEM_BOUNDS = ("manual heap = {handle 0: live 2-slot buffer with symbolic contents, handle 1: freed}; operand fields, window base (<=2) and all 6 "
+              "registers symbolic (any Value: negative, huge, non-int, null)")
+for _oid, _h, _tier, _what in (
+        ("O3load", "c09_o3_loadmem", "quick", "LoadMem: Ok iff handle 0 and offset in {0,1}, then the stored value; otherwise an error; nothing changes"),
+        ("O3loadi", "c09_o3_loadmemi", "thorough", "LoadMemI: same with an immediate offset 0..255"),
+        ("O3store", "c09_o3_storemem", "quick", "StoreMem: a legal store changes exactly the addressed slot; an illegal one is an error and changes nothing"),
+        ("O3storei", "c09_o3_storememi", "thorough", "StoreMemI: same with an immediate offset"),
+        ("O3free", "c09_o3_free", "quick", "Free: handle 0 frees the buffer and un-charges it; null is a no-op; a second free, a never-issued, negative or non-integer handle is an error and changes nothing"),
+        ("O3alloc", "c09_o3_alloc", "quick", "Alloc: sizes 1..5 within budget yield the recycled handle 1, null-filled, charged 8 bytes per slot, other buffer untouched; 0, negative, non-int or over-budget sizes are errors and change nothing")):
+    ob("C09", _oid, "runtime", "shell.rs", _h, path=SHELL_PATH + _h, tier=_tier, timeout=1500, args=U7, what=_what, functions=MEM_FNS,
+       bounds=MEM_BOUNDS + ("; heap budget 40 bytes from the limit" if "alloc" in _h else ""), stubs=VM_STUBS)
+ob("C09", "O1hist", "runtime", "shell.rs", "c09_o1_history2", path=SHELL_PATH + "c09_o1_history2", tier="thorough", timeout=2400,
+   what="every history of 2 operations (alloc/free/load/store/size with symbolic arguments) on the real ManualHeap agrees with an executable model; charge = 8 x live slots after every step",
+   functions=["ManualHeap::{new,alloc,free,load,store,size,bytes_allocated}"], bounds="2 operations, sizes 0..2, handles/offsets any usize, values any bits", stubs=[])
+ob("C09", "O1recycle", "runtime", "shell.rs", "c09_o1_recycle", path=SHELL_PATH + "c09_o1_recycle", tier="thorough", timeout=1200,
+   what="alloc, alloc, store, free, (double free, use after free reported), alloc into the recycled slot, free, free: exact accounting and isolation at every point",
+   functions=["ManualHeap::{new,alloc,free,load,store,size,bytes_allocated}"], bounds="fixed 9-operation history, sizes 1..2 symbolic, value symbolic", stubs=[])
+
+ob("C13", "O1enter", "runtime", "shell.rs", "c13_o1_enter", path=SHELL_PATH + "c13_o1_enter", timeout=600, args=U7,
+   what="EnterNoGc: depth becomes depth+1 for every depth (no saturation), nothing else changes", functions=["ops/memory.inc handler 26"],
+   bounds="depth any usize < MAX", stubs=VM_STUBS)
+ob("C13", "O1exit", "runtime", "shell.rs", "c13_o1_exit", path=SHELL_PATH + "c13_o1_exit", timeout=600, args=U7,
+   what="ExitNoGc: depth>0 becomes depth-1; at 0 an InvalidBytecode error and depth stays 0; nothing else changes", functions=["ops/memory.inc handler 27"],
+   bounds="depth any usize", stubs=VM_STUBS)
+for _d in (1, 2, 64):
+    ob("C13", "O2d%d" % _d, "runtime", "shell.rs", "c13_o2_no_collect_depth%d" % _d, path=SHELL_PATH + "c13_o2_no_collect_depth%d" % _d,
+       tier="quick" if _d != 2 else "thorough", timeout=900, args=U7,
+       what="with the collection threshold crossed and no_gc_depth = %d, maybe_collect frees nothing and changes no counter" % _d,
+       functions=["VM::maybe_collect", "VM::is_in_no_gc", "Heap::should_collect"], bounds="heap of 2 strings, threshold symbolic (<= bytes allocated); depth concrete (a symbolic depth would unroll collect->mark)",
+       stubs=VM_STUBS, assumes=["hook Heap::verif_set_gc_threshold (cfg(kani)) sets the threshold"])
+
+STR_STUBS = VM_STUBS + ["VM::intern_string -> alloc_string (identity of interned strings is not part of the property)"]
+for _l, _tier in ((2, "quick"), (3, "quick"), (4, "thorough")):
+    ob("C20", "O1len%d" % _l, "runtime", "shell.rs", "c20_o1_forloop_step_len%d" % _l, path=SHELL_PATH + "c20_o1_forloop_step_len%d" % _l, tier=_tier,
+       timeout=2400, args=U7,
+       what="StringForLoop, one step from any character-boundary offset of any valid UTF-8 string of %d bytes: yields exactly the scalar starting there as a one-character string and advances to the next boundary, or falls through unchanged at the end" % _l,
+       functions=["ops/control_flow.inc handler 177", "VM::alloc_string"], bounds="string of exactly %d symbolic bytes (valid UTF-8); offset symbolic" % _l, stubs=STR_STUBS)
+for _l, _tier in ((2, "thorough"), (3, "thorough")):
+    ob("C20", "O2len%d" % _l, "runtime", "shell.rs", "c20_o2_loadchar_len%d" % _l, path=SHELL_PATH + "c20_o2_loadchar_len%d" % _l, tier=_tier,
+       timeout=3600, args=U7,
+       what="StringLoadChar(s,i) for any Value i: Ok iff 0 <= i < character count, and then the i-th scalar as a one-character string; otherwise IndexOutOfBounds",
+       functions=["ops/arrays.inc handler 176"], bounds="string of exactly %d symbolic bytes (valid UTF-8); index any Value" % _l, stubs=STR_STUBS)
+for _l, _tier in ((2, "thorough"), (3, "thorough"), (4, "thorough")):
+    ob("C20", "O3len%d" % _l, "runtime", "shell.rs", "c20_o3_lengths_len%d" % _l, path=SHELL_PATH + "c20_o3_lengths_len%d" % _l, tier=_tier,
+       timeout=3600, args=U7,
+       what="len (opcode 161) and string.len are the byte length; string.char_len is the number of scalars (= items iteration yields)",
+       functions=["ops/arrays.inc handler 161", "stdlib/string.rs native_len / native_char_len (re-instantiated)"], bounds="string of exactly %d symbolic bytes (valid UTF-8)" % _l, stubs=VM_STUBS)
+
+C05_FNS = ["ops/call_global.inc", "ops/call_global_mono.inc", "ops/calls.inc handler 104", "dispatch/cache.rs", "VM::set_global_by_index"]
+C05_BOUNDS = ("caller + two distinct callees (arity 0/1 symbolic) + one native; global 0 bound to any of them, an int or null; the two words after the call "
+              "arbitrary (slot <= 1); call-site cache of 2 entries, each default or the entry of *either* callee; nargs 0/1; dest <= 2; one global layout")
+ob("C05", "O1", "runtime", "shell.rs", "c05_o1_cache_words_roundtrip", path=SHELL_PATH + "c05_o1_cache_words_roundtrip", timeout=300,
+   what="decode_cache_words(encode_cache_words(ptr, slot)) == (ptr, slot)", functions=["dispatch/cache.rs"], bounds="ptr < 2^48, any slot", stubs=[])
+for _oid, _h, _tier in (("O2a", "c05_o2a_callglobal", "thorough"), ("O2b", "c05_o2b_callglobalmono", "quick"), ("O2c", "c05_o2c_callglobalnative", "quick")):
+    ob("C05", _oid, "runtime", "shell.rs", _h, path=SHELL_PATH + _h, tier=_tier, timeout=2400, args=U7,
+       what="the frame pushed runs the code of the function the global denotes now (or that native is called, or an error is reported); a callable binding of matching arity is called",
+       functions=C05_FNS, bounds=C05_BOUNDS, stubs=CALL_STUBS)
+ob("C05", "O2e", "runtime", "shell.rs", "c05_o2e_set_global_invalidates", path=SHELL_PATH + "c05_o2e_set_global_invalidates", timeout=900, args=U7,
+   what="set_global_by_index leaves no call-site cache entry behind", functions=["VM::set_global_by_index"], bounds=C05_BOUNDS, stubs=VM_STUBS)
+
+# ---------------------------------------------------------------- C01 (opt crate, in-crate harness module via hook)
+FOLD_PATH = "passes::constant_fold::expr::binary::verif_fold::"
+_full = "a, b: all of i64 x i64 (operands outside the 48-bit range must not fold)"
+for _n, _dom, _tier, _to in (("add", _full, "quick", 600), ("sub", _full, "thorough", 600), ("shl", _full, "quick", 600), ("shr", _full, "quick", 600),
+                             ("and", _full, "thorough", 600), ("or", _full, "thorough", 600), ("xor", _full, "thorough", 600),
+                             ("lt", _full, "quick", 600), ("le", _full, "thorough", 600), ("gt", _full, "thorough", 600), ("ge", _full, "thorough", 600),
+                             ("eq", _full, "thorough", 600), ("ne", _full, "thorough", 600),
+                             ("mul", "one operand (either side) within 12 bits, the other any i64 (symbolic x symbolic 64-bit multiply does not terminate in SAT)", "quick", 1200),
+                             ("div", "divisor within 8 bits signed (incl. 0 and -1), dividend any i64", "quick", 1800),
+                             ("mod", "divisor within 8 bits signed (incl. 0 and -1), dividend any i64", "thorough", 1800)):
+    ob("C01", "I" + _n, "opt", "fold.rs", "c01_fold_int_" + _n, path=FOLD_PATH + "c01_fold_int_" + _n, tier=_tier, timeout=_to,
+       what="fold_int_binary(a, %s, b): whatever is folded is exactly the VM's result (48-bit wrap, truncating division, & 63 shift mask) and nothing is folded where the VM raises an error" % _n,
+       functions=["aelys_opt ConstantFolder::fold_int_binary", "is_in_vm_range"], bounds=_dom, stubs=[])
+for _n, _tier in (("add", "quick"), ("sub", "thorough"), ("lt", "quick"), ("le", "thorough"), ("eq", "quick"), ("ne", "thorough")):
+    ob("C01", "F" + _n, "opt", "fold.rs", "c01_fold_float_" + _n, path=FOLD_PATH + "c01_fold_float_" + _n, tier=_tier, timeout=900,
+       what="fold_float_binary(a, %s, b): the folded literal is bit-identical to the IEEE result the VM computes" % _n,
+       functions=["aelys_opt ConstantFolder::fold_float_binary"], bounds="a, b: all f64 bit patterns", stubs=[])
+ob("C01", "O3", "opt", "fold.rs", "c01_in_vm_range", path=FOLD_PATH + "c01_in_vm_range", timeout=300,
+   what="is_in_vm_range(n) iff n is a 48-bit two's-complement value", functions=["aelys_opt is_in_vm_range"], bounds="all i64", stubs=[])
+
+# ---------------------------------------------------------------- C10
+C10_BOUNDS = "VM holding two strings and a 2-slot manual buffer, 0..=64 bytes (symbolic) below its limit"
+for _oid, _h, _tier, _what, _fns in (
+        ("O1str", "c10_o1_alloc_string", "quick", "alloc_string of any 2-byte UTF-8 string: admitted iff its byte size fits, charged exactly, else OutOfMemory and nothing charged", ["VM::alloc_string", "VM::ensure_heap_capacity", "Heap::estimate_string_size"]),
+        ("O1manual", "c10_o1_manual_alloc", "quick", "manual_alloc(size) for every usize: admitted iff size>=1 and 8*size fits, charged exactly; otherwise an error and nothing charged; no overflow", ["VM::manual_alloc", "VM::ensure_heap_capacity", "ManualHeap::alloc"]),
+        ("O1elem", "c10_o1_element_request", "quick", "check_element_request(count, elem) for every i64 count: negative -> InvalidAllocationSize, over budget -> OutOfMemory, before any host allocation", ["VM::check_element_request", "VM::ensure_heap_capacity"]),
+        ("O1array", "c10_o1_alloc_array", "thorough", "alloc_array of 0..4 ints: admitted iff it fits, charged exactly", ["VM::alloc_array", "VM::alloc_object"]),
+        ("O2vecpush", "c10_o2_vecpush_growth_charged", "quick", "VecPushI on a full Vec with < 1 element of headroom: an error, or the storage the Vec owns afterwards is within the limit", ["ops/arrays.inc handler 153", "AelysVec::push"])):
+    ob("C10", _oid, "runtime", "shell.rs", _h, path=SHELL_PATH + _h, tier=_tier, timeout=1500, args=U7, what=_what, functions=_fns, bounds=C10_BOUNDS, stubs=VM_STUBS)
